@@ -477,8 +477,17 @@ class BADS:
                 + "and plausible bounds should not be too close. "
                 + "Moving plausible bounds."
             )
-            plausible_lower_bounds = np.maximum(plausible_lower_bounds, LB_eff)
-            plausible_upper_bounds = np.minimum(plausible_upper_bounds, UB_eff)
+            plb_moved = np.maximum(plausible_lower_bounds, LB_eff)
+            pub_moved = np.minimum(plausible_upper_bounds, UB_eff)
+            # A plausible interval lying entirely within the margin of a hard bound
+            # would be turned inside out: leave it as given in that case
+            keep = plb_moved >= pub_moved
+            plausible_lower_bounds = np.where(
+                keep, plausible_lower_bounds, plb_moved
+            )
+            plausible_upper_bounds = np.where(
+                keep, plausible_upper_bounds, pub_moved
+            )
 
         # Check that all X0 are inside the plausible bounds,
         # move bounds otherwise
